@@ -13,7 +13,7 @@ TECHNIQUE = "runtime monitor: instrumented StreamInterface (counting/freezing/sp
 RULE = ("family 'cell': (class, parameter set) cells over all 19 concrete distribution classes with parameters from "
         "the documented domain inside a stated numeric envelope incl. closed end points; each cell runs twin, "
         "interleave, re-point(+frozen old stream), 100 support-checked draws, density evaluation and the splice "
-        "sweep; family 'domain': out-of-domain parameter sets must be refused at construction; family 'wrap': every "
+        "sweep (single, adjacent pair, repeated at stride 2 and 3, run of 4); family 'domain': out-of-domain parameter sets must be refused at construction; family 'wrap': every "
         "QuantityDist wrapper; non-trivial(cell) = the splice sweep hit >= 10 spliced positions and the draw "
         "consumes >= 1 uniform; distinct = canonical (class, parameters) hash")
 ASSUMPTIONS = ["numeric envelope: shape-like parameters in [0.05, 50], scales in [1e-3, 1e3], Poisson rate <= 100, Erlang k <= 40, "
@@ -178,6 +178,9 @@ class _F(float):
     """a float subclass (numpy.float64 is one): still a float inside the documented domain"""
 
 
+_PAT = {(0,): "", (0, 1): "-pair", (0, 2): "-repeated", (0, 2, 4): "-repeated", (0, 3): "-repeated", (0, 1, 2, 3): "-run"}
+
+
 def _mk(cls, stream, args, wrap=False):
     from pydsol.core import distributions as D
     if wrap:
@@ -298,10 +301,12 @@ def run_case(case, ctx):
     hits = 0
     for ename in EXT:
         e = EXTREMES[ename]
-        for width in (1, 2):
+        # patterns: single, adjacent pair, and the same extreme repeated at the stride of a retry loop (a sampler that
+        # redraws once after a degenerate value must survive a second degenerate value)
+        for width, offsets in ((1, (0,)), (2, (0, 1)), (3, (0, 2)), (5, (0, 2, 4)), (4, (0, 3)), (4, (0, 1, 2, 3))):
             for pos in range(K):
                 s = CountingStream(seed)
-                for w in range(width):
+                for w in offsets:
                     s.splice[pos + w] = e
                 d = _mk(cls, s, args)
                 guard = 0
@@ -311,13 +316,13 @@ def run_case(case, ctx):
                     try:
                         v = d.draw()
                     except Exception as ex:
-                        ctx.viol(f"draw-raises:{cls}:{ename}{'-pair' if width == 2 else ''}:{type(ex).__name__}",
+                        ctx.viol(f"draw-raises:{cls}:{ename}{_PAT[offsets]}:{type(ex).__name__}",
                                  {**info, "uniform": ename, "value": repr(e), "position": pos, "width": width, "exc": repr(ex)})
                         guard = 999
                         break
                     ctx.count("draws_checked")
                     if not _support_ok(cls, args, v):
-                        ctx.viol(f"draw-outside-support:{cls}:{ename}{'-pair' if width == 2 else ''}",
+                        ctx.viol(f"draw-outside-support:{cls}:{ename}{_PAT[offsets]}",
                                  {**info, "uniform": ename, "position": pos, "width": width, "value": repr(v)})
                         guard = 999
                         break
